@@ -971,3 +971,34 @@ package flags
 //@   ensures[C14] err == nil ==> r != nil && !isnil(r.Sections) && r.File == filename
 //@   ensures[C14] is(err, *IniError) ==> as(err, *IniError) != nil && as(err, *IniError).LineNumber == uint((ncalls(readFullLine) - nfails(readFullLine)) - l0) && as(err, *IniError).LineNumber >= 1 && as(err, *IniError).File == filename
 //@   ensures[C14] err != nil ==> r == nil
+
+// ===================================================================
+// group.go: resolving an INI key to an option
+// ===================================================================
+
+//@ assumed func strings.ToLower(s string) (r string)
+//@   pure
+
+// The caller's ini-name matcher is an arbitrary but fixed predicate.
+//@ assumed func Group.optionByName.namematch(o *Option, n string) (r bool)
+//@   pure
+
+// rank of the best way in which option o answers to name (0: not at all):
+// 4 ini-name (via the supplied matcher), 3 field name, 2 namespaced long name, 1 short name
+//@ pure func longNameWithNS(o *Option) string = ite(len(o.LongName) == 0, "", longNameOf(o))
+//@ pure func rankOf(o *Option, name string, hasMatcher bool) int = ite(hasMatcher && Group.optionByName.namematch(o, name), 4, ite(name == o.field.Name, 3, ite(name == longNameWithNS(o), 2, ite(o.ShortName != 0 && name == string(o.ShortName), 1, 0))))
+//@ pure func noBetterIn(gr *Group, upto int, name string, hasMatcher bool, prio int) bool = forall(i, 0, upto, rankOf(gr.options[i], name, hasMatcher) <= prio)
+
+//@ func (g *Group) optionByName(name string, namematch func(*Option, string) bool) (r *Option)
+//@   props C13 C04
+//@   requires g != nil
+//@   let root := g
+//@   let hm := namematch != nil
+//@   loop 1 invariant 0 <= prio && prio <= 4 && (prio == 0) == (retopt == nil) && (retopt != nil ==> rankOf(retopt, name, hm) == prio)
+//@   loop 1 invariant forall(j, 0, idx_1, noBetterIn(iterelem(Group.eachGroup, root, j, 0), len(iterelem(Group.eachGroup, root, j, 0).options), name, hm, prio))
+//@   loop 2 invariant 0 <= prio && prio <= 4 && (prio == 0) == (retopt == nil) && (retopt != nil ==> rankOf(retopt, name, hm) == prio)
+//@   loop 2 invariant forall(j, 0, idx_1, noBetterIn(iterelem(Group.eachGroup, root, j, 0), len(iterelem(Group.eachGroup, root, j, 0).options), name, hm, prio))
+//@   loop 2 invariant noBetterIn(iterelem(Group.eachGroup, root, idx_1, 0), idx_2, name, hm, prio)
+//@   ensures[C13] r != nil ==> rankOf(r, name, hm) >= 1
+//@   ensures[C13] forall(j, 0, iterlen(Group.eachGroup, root), noBetterIn(iterelem(Group.eachGroup, root, j, 0), len(iterelem(Group.eachGroup, root, j, 0).options), name, hm, ite(r == nil, 0, rankOf(r, name, hm))))
+//@   assigns nothing
